@@ -33,7 +33,7 @@ def cases(tier, seed):
         out.append(('f12', i))
     for i in range(n // 2):
         out.append(('fexp', i))
-    for i in range(n // 8 + 1):
+    for i in range(n // 4 + 1):
         out.append(('miller', i))
     return out
 
@@ -42,9 +42,9 @@ def required(tier):
     req = ['f4.' + o for o in ('mul', 'sqr', 'inv', 'inv/zero', 'mul_1', 'scale', 'scale_fq', 'nonres', 'unitary', 'add', 'sub', 'neg')]
     req += ['f4.frob/%d' % k for k in F4_FROB]
     req += ['f12.' + o for o in ('mul', 'sqr', 'inv', 'inv/zero', 'mul_015', 'scale', 'nonres', 'pow128', 'powfr', 'add', 'sub', 'neg')]
-    req += ['f12.frob/%d' % k for k in (1, 2, 3, 6)]
+    req += ['f12.frob/%d' % k for k in (1, 2, 3, 6)] + ['f12.mul/cancel', 'f4.mul/cancel']
     req += ['f12.fexp', 'f12.fexp2', 'f12.fexp/zero', 'f12.fexp2/zero', 'f12.first', 'f12.last1', 'f12.last2', 'f12.fexp/non-unitary', 'f12.fexp/subfield',
-            'ml.jac', 'ml.prep', 'ml.agree', 'carry.f4mul/0', 'carry.f4mul/1', 'carry.f4mul/2', 'class/sparse', 'class/unitary', 'class/max-carry',
+            'ml.jac', 'ml.prep', 'ml.agree', 'ml.jac/Q-aff', 'ml.jac/Q-scaled', 'ml.jac/Q-jac', 'carry.f4mul/0', 'carry.f4mul/1', 'carry.f4mul/2', 'class/sparse', 'class/unitary', 'class/max-carry',
             'class/subfield', 'class/uniform', 'class/limbs']
     return req
 
@@ -151,7 +151,9 @@ def run(ctx, spec):
                 x0 = ((0, 0), (0, 0))
                 add('_ f4.inv %s' % h4(x0), 'f4.inv/zero', 'none', None, False)
             if any(flatx):
-                add('_ f4.inv %s' % h4(x), 'f4.inv', 'ok ' + h4(of4(finv(X))), ('f4inv', x), ntx)
+                xi = of4(finv(X))
+                add('_ f4.inv %s' % h4(x), 'f4.inv', 'ok ' + h4(xi), ('f4inv', x), ntx)
+                add('_ f4.mul %s %s' % (h4(x), h4(xi)), 'f4.mul/cancel', 'ok ' + h4(((1, 0), (0, 0))), ('f4mulinv', x), ntx)
             b1 = ((0, 0), y[1])
             add('_ f4.mul_1 %s %s' % (h4(x), h4(b1)), 'f4.mul_1', 'ok ' + h4(of4(fmul(X, rm.f4_to12(b1)))), ('f4mul1', x, y[1]), ntx)
             for code in rng.sample(F4_FROB, 3):
@@ -180,7 +182,10 @@ def run(ctx, spec):
             add('_ f12.mul %s %s' % (A, B), 'f12.mul', 'ok ' + h12(fmul(a, b)), ('mul', A, B), nz(a))
             add('_ f12.sqr %s' % A, 'f12.sqr', 'ok ' + h12(fmul(a, a)), ('sqr', A), nz(a))
             if any(a):
-                add('_ f12.inv %s' % A, 'f12.inv', 'ok ' + h12(finv(a)), ('inv', A), nz(a))
+                ai = finv(a)
+                add('_ f12.inv %s' % A, 'f12.inv', 'ok ' + h12(ai), ('inv', A), nz(a))
+                # x * x^-1: eleven coefficients cancel exactly to zero although every partial product is non-zero
+                add('_ f12.mul %s %s' % (A, h12(ai)), 'f12.mul/cancel', 'ok ' + h12(rm.ONE), ('mulinv', A), nz(a))
             if rng.random() < 0.15:
                 add('_ f12.inv %s' % h12(rm.ZERO), 'f12.inv/zero', 'none', None, False)
             # sparse operand for mul_015: c0 arbitrary, c1 = 0, c2 = (0, *)  i.e. coefficients at w^0, w^3, w^6, w^9 and w^5, w^11
@@ -226,8 +231,20 @@ def run(ctx, spec):
         P, Q = rm.gmul(1, aa), rm.gmul(2, bb)
         pl, ql = rm.jac_lit(F1, P), rm.jac_lit(F2, Q)
         want = rm.pairing(P, Q)
-        lines.append('mj ml.jac %s %s' % (ql, pl))
-        exp.append(('ml.jac', ('ml', want), ('mljac', aa, bb), True))
+        # the Jacobian loop takes Q in any representation (z = 1, rescaled by a real / complex lambda, library Jacobian)
+        qrep = rng.choice(['aff', 'scaled', 'scaled', 'jac'])
+        if qrep == 'scaled':
+            qj = rm.jac_lit(F2, Q, gen.lam_for(rng, 2))
+        elif qrep == 'jac':
+            k1 = rng.randrange(1, r)
+            lines.append('qa g2.add %s %s' % (rm.jac_lit(F2, rm.gmul(2, k1)), rm.jac_lit(F2, rm.gmul(2, bb - k1), gen.lam_for(rng, 2))))
+            exp.append(('setup', None, None, False))
+            qj = '$qa'
+        else:
+            qj = ql
+        ctx.classes['ml.jac/Q-' + qrep] += 1
+        lines.append('mj ml.jac %s %s' % (qj, pl))
+        exp.append(('ml.jac', ('ml', want), ('mljac', aa, bb, qrep), True))
         lines.append('pp ml.prepraw %s' % ql)
         exp.append(('setup', None, None, False))
         lines.append('mp ml.prep $pp %s' % pl)
